@@ -88,7 +88,7 @@ def merge_streams(outs):
 SPECS = {
     "C01": dict(modules=["Ovldverif.Props.C01"], streams=["fn", "fn_rich", "dep_f", "rewrite"], oracle="C01"),
     "C10": dict(modules=["Ovldverif.Props.C10"], streams=["dep_e", "dep_f", "dep_lit"], oracle="C10"),
-    "C11": dict(modules=["Ovldverif.Props.C11"], streams=["dep_e", "dep_f", "dep_lit"], oracle="C11"),
+    "C11": dict(modules=["Ovldverif.Props.C11", "Ovldverif.Props.C10"], streams=["dep_e", "dep_f", "dep_lit"], oracle="C11"),
     "C02": dict(modules=["Ovldverif.Props.C02"], streams=["table_static", "fn_static", "levels"], oracle="C02"),
     "C03": dict(modules=["Ovldverif.Props.C03"], streams=["fn", "fn_static"], oracle="C03"),
     "C04": dict(modules=["Ovldverif.Props.C04"], streams=["table_static", "table_rich", "fn"], oracle="C04"),
